@@ -194,6 +194,8 @@ class SourceInfo:
     BUILTIN_ENUMS = {
         "Option": ["None", "Some"], "Result": ["Ok", "Err"], "Ordering": ["Less", "Equal", "Greater"],
         "ControlFlow": ["Continue", "Break"], "Cow": ["Borrowed", "Owned"],
+        # std::io::ErrorKind: only the leading variants whose position is stable are listed
+        "ErrorKind": ["NotFound", "PermissionDenied"],
     }
 
     def __init__(self, srcdir):
@@ -442,16 +444,18 @@ class Event:
 
 
 class Frame:
-    __slots__ = ("fn", "cells", "bb", "visits", "dest", "ret_bb", "fid", "then", "final")
+    __slots__ = ("fn", "cells", "bb", "visits", "dest", "ret_bb", "fid", "then", "final", "post")
 
     def __init__(self, fn, cells, fid):
         self.fn, self.cells, self.bb, self.visits, self.dest, self.ret_bb, self.fid = fn, cells, 0, {}, None, None, fid
         self.then = ()        # further (fn, args) invocations to run after this frame returns (summary 'invoke_seq')
         self.final = None     # value written to dest after the last invocation (None: the last return value)
+        self.post = None      # function applied to the return value before it is written to dest (summary 'invoke' with post)
 
     def clone(self):
         f = Frame(self.fn, self.cells, self.fid)
         f.bb, f.visits, f.dest, f.ret_bb, f.then, f.final = self.bb, dict(self.visits), self.dest, self.ret_bb, self.then, self.final
+        f.post = self.post
         return f
 
 
@@ -932,6 +936,12 @@ class Engine:
             if kind == "variant":
                 # tuple struct constructor `FileLen(move _1)`
                 return Agg(parts[-1], dict(enumerate(vals)))
+            dty = getattr(self, "cur_dest_ty", None)
+            if dty and len(parts) == 1:
+                # bare unit variant (`_1 = NotFound;`): the enum is the type of the destination local
+                idx = self.prog.src.variant_index(type_base(dty), parts[-1])
+                if idx is not None:
+                    return EnumV(type_base(dty), parts[-1], idx, {})
             return self.const(st, name)
         raise Inconclusive("aggregate %s %s" % (kind, name))
 
@@ -1047,6 +1057,7 @@ class Engine:
         self.stats["blocks"] += 1
         for s in blk.stmts:
             if s[0] == "assign":
+                self.cur_dest_ty = fr.fn.locals.get(s[1].local) if not s[1].projs else None
                 self.write_place(st, s[1], self.rvalue(st, s[2]))
             elif s[0] == "setdiscr":
                 raise Inconclusive("SetDiscriminant")
@@ -1141,6 +1152,24 @@ class Engine:
             return [st]
         if fr.final is not None:
             rv = fr.final
+        if fr.post is not None:
+            rv = fr.post(rv)
+            if isinstance(rv, list):
+                # the post-processing forks: [(condition or None, value)]
+                alts = [(c, v) for c, v in rv if c is None or self.feasible(st, c)]
+                out = []
+                for i, (c, v) in enumerate(alts):
+                    s2 = st if i == len(alts) - 1 else st.clone()
+                    if c is not None:
+                        s2.pc.append(c)
+                    if fr.dest is not None:
+                        self.write_place(s2, fr.dest, v)
+                    if fr.ret_bb is None:
+                        out += self.end(s2, "diverge")
+                        continue
+                    s2.frames[-1].bb = fr.ret_bb
+                    out.append(s2)
+                return out
         if fr.dest is not None:
             self.write_place(st, fr.dest, rv)
         if fr.ret_bb is None:
@@ -1282,6 +1311,14 @@ class Engine:
             if isinstance(v, tuple) and v and v[0] == "store":
                 self.store(s2, v[1].cell, v[1].path, v[2])
                 v = v[3]
+            if isinstance(v, tuple) and v and v[0] == "invoke":
+                # alternative that runs a crate-local function / closure body; optional post-processing of its result
+                nf = self.new_frame(s2, v[1], v[2])
+                nf.dest, nf.ret_bb = dest, ret_bb
+                nf.post = v[3] if len(v) > 3 else None
+                s2.frames.append(nf)
+                out.append(s2)
+                continue
             if isinstance(v, str) and v == "diverge" or ret_bb is None:
                 out += self.end(s2, "panic" if isinstance(v, str) and v == "diverge" else "diverge", "call does not return")
                 continue
